@@ -206,6 +206,25 @@ def step (cfg : Cfg) (s : State) : Op → Out
   | .reset => reset cfg s
   | .adv us => ⟨{ s with now := s.now + us }, .unit, [], lkNone, "adv"⟩
 
+/-! ### read-only accessors (`is_active`, `is_operational`, `get_status().operations_remaining / time_remaining`) -/
+
+/-- `is_active()` -/
+def isActive (s : State) : Bool := decide (s.phase = .active)
+
+/-- `is_operational()`: NASCENT, ACTIVE or SENESCENT -/
+def isOperational (s : State) : Bool :=
+  decide (s.phase = .nascent) || decide (s.phase = .active) || decide (s.phase = .senescent)
+
+/-- `get_status().operations_remaining` -/
+def opsRemaining (s : State) : Int := s.length
+
+/-- `get_status().time_remaining`: `max(timedelta(0), max_lifetime - age)` when a (truthy) lifetime limit is set and
+    the lifecycle has a start time, else `None` -/
+def timeRemaining (cfg : Cfg) (s : State) : Option Nat :=
+  match cfg.life, s.started with
+  | some l, some t0 => if l = 0 then none else some (l - (s.now - t0))
+  | _, _ => none
+
 /-- state after a history -/
 def run (cfg : Cfg) (s : State) : List Op → State
   | [] => s
@@ -269,6 +288,15 @@ def stepW (w : World) : WOp → World × Option Out
       match w.insts.lookup k with
       | none => (w, none)
       | some i => (⟨w.now, (k, ⟨i.cfg, (step i.cfg i.st op).st⟩) :: w.insts⟩, some (step i.cfg i.st op))
+
+/-- a public configuration attribute of the lifecycle in slot `k` is re-assigned (`t.error_threshold = 2`, …): the
+    methods read the attributes at call time, so the state is kept and later calls run under the new configuration.
+    Outside the property's quantifier (configurations are fixed at construction); every per-call theorem is stated
+    for arbitrary configuration and state and so covers each call after a re-assignment. -/
+def recfgW (w : World) (k : Nat) (f : Cfg → Cfg) : World :=
+  match w.insts.lookup k with
+  | none => w
+  | some i => ⟨w.now, (k, ⟨f i.cfg, i.st⟩) :: w.insts⟩
 
 def runW (w : World) : List WOp → World
   | [] => w
